@@ -49,7 +49,14 @@ def rand_rot(rng, improper=False):
 
 def point_sets(rng):
     n = rng.randint(3, 50)
-    kind = rng.choice(["generic", "generic", "planar", "collinear", "mirror", "noise", "unrelated", "integer"])
+    kind = rng.choice(["generic", "generic", "planar", "collinear", "mirror", "noise", "unrelated", "integer", "float32", "zero-covariance"])
+    if kind == "zero-covariance":
+        # a centred square in the xy plane against a symmetric collinear set on z: the covariance matrix is exactly zero, every rotation
+        # is optimal, and the routine must still return a proper rotation
+        h = rng.choice([0.5, 1.0, 2.0])
+        A0 = np.array([[h, h, 0], [-h, h, 0], [-h, -h, 0], [h, -h, 0]], dtype=float)
+        B0 = np.array([[0, 0, 1.0], [0, 0, -1.0], [0, 0, 2.0], [0, 0, -2.0]])
+        return "unrelated", A0, B0, np.eye(3)
     A = np.array([[rng.uniform(-5, 5) for _ in range(3)] for _ in range(n)])
     if kind == "integer":
         # lattice points handed over as an INTEGER array; B is a rotated float copy
@@ -72,7 +79,12 @@ def point_sets(rng):
     else:
         B = A @ Q
     # the unit the coordinates are expressed in is arbitrary (metres, Angstrom, picometres, model units): optimality is scale free
-    sc = rng.choice([1.0, 1.0, 1.0, 1.0, 1e-10, 1e-7, 1e-3, 1e3, 1e6])
+    sc = rng.choice([1.0, 1.0, 1.0, 1.0, 1e-10, 1e-7, 1e-3, 1e3, 1e6, 1e-80, 1e80])
+    if kind == "float32":
+        # the first set held in single precision (a trajectory frame), the second in double: B is an exact rotation of the values A holds
+        sc = sc if 1e-10 <= sc <= 1e6 else 1.0          # stay inside the range of single precision
+        A32 = (A * sc).astype(np.float32)
+        return "generic", A32, A32.astype(np.float64) @ Q, Q
     return kind, A * sc, B * sc, Q
 
 
@@ -215,8 +227,9 @@ def judge_dimer(seed):
         kw_b = {"generator_symop": np.array([code] * n), "asym_mol_idx": 1}
     a = Molecule([Element[z] for z in zs], P, **kw_a)
     b = Molecule([Element[z] for z in zs], P @ Q + shift, **kw_b)
+    dkw = {"frac_shift": np.array([1.0, 0.0, -1.0])} if (kw_a and rng.random() < 0.6) else {}      # as Crystal.symmetry_unique_dimers builds them
     try:
-        d = Dimer(a, b, transform_ab="calculate")
+        d = Dimer(a, b, transform_ab="calculate", **dkw)
         R, v = d.transform_ab
     except Exception as ex:  # noqa
         return f"Dimer(..., transform_ab='calculate') raised {type(ex).__name__}: {ex}"
